@@ -1,5 +1,5 @@
 """Property -> rules registry."""
-from .rules import kernel, incr, rot, sched, meas, integrator, kal, purity, diff, sensor, layout, geo, errmodel, frames, simrules, dtype
+from .rules import kernel, incr, rot, sched, meas, integrator, kal, purity, diff, sensor, layout, geo, errmodel, frames, simrules, dtype, idxdom
 
 PROPS = {
     'C01': dict(
@@ -163,8 +163,11 @@ PROPS = {
         rules=[layout.layout_state, layout.layout_noise, layout.layout_prov, layout.p0_form,
                layout.rec_order, kal.q_psd,
                lambda c: sched.sched_pair(c, (sched.FF,)),
-               lambda c: sched.sched_handover(c, (sched.FF,))],
-        decided=['state and noise block layout contiguous, disjoint and identical in all six '
+               lambda c: sched.sched_handover(c, (sched.FF,)),
+               idxdom.idx_domain],
+        decided=['positional cursors address rows of their own time axis only (the readings '
+                 'averaged for the sensor-state coupling come from the propagated interval)',
+                 'state and noise block layout contiguous, disjoint and identical in all six '
                  'functions', 'every block is fed from / read into the model that owns it',
                  'initial covariance is the congruence T P_pva T^T with each sigma squared at its '
                  'own component', 'x and P propagated with one (Phi, Qd); corrections precede '
@@ -174,7 +177,7 @@ PROPS = {
                    'independent batch (Gauss-Markov) solution']),
     'C12': dict(
         rules=[layout.est_rules, sensor.sm_accum, sensor.sm_sign,
-               lambda c: sched.sched_handover(c, (sched.FB,)), kal.q_psd],
+               lambda c: sched.sched_handover(c, (sched.FB,)), kal.q_psd, idxdom.idx_domain],
         decided=['both filters reset both sensor models before any use (re-run reproducibility)',
                  'feedback effects (set_pva, update_estimates, correct) only inside the '
                  'measurement-due block: with no epoch in the span the loop is plain integration '
